@@ -1,0 +1,23 @@
+//go:build verif
+
+// Machine-checked contracts for package stringset (comment-only; read by /verif/govc).
+// Nothing in this file is executable: with the "verif" build tag off it is not compiled,
+// with the tag on it contributes only comments.
+
+package stringset
+
+//@ func Set.Sample
+//@   requires n >= 0
+//@   ensures subset: forall x string :: x in result ==> x in s
+//@   ensures size: len(result) == min(n, len(s))
+//@   loop 0 invariant members: forall x string :: x in c <==> seen0(x)
+//@   loop 0 invariant count: len(c) == nseen0 && len(c) == old(n) - n && n >= 0
+//@   loop 0 invariant fresh_c: fresh(c) && c != s
+
+//@ func Set.Copy
+//@   ensures same: forall x string :: x in result <==> x in s
+//@   ensures size: len(result) == len(s)
+//@   ensures isfresh: fresh(result)
+//@   loop 0 invariant members: forall x string :: x in c <==> seen0(x)
+//@   loop 0 invariant count: len(c) == nseen0
+//@   loop 0 invariant fresh_c: fresh(c) && c != s
